@@ -64,9 +64,7 @@ theorem find_surface_on_line (T : TGrid) (g : Geo) (mp : BlockMap) (maxVol : Rat
     (hv : top.volume > 0) :
     columnSurface T g mp maxVol col =
       .ok (some (surfaceFormula c.z (top.volume / col.area)
-        (match (lineSizes none bb steps).getLast? with
-         | some t => t
-         | none => top.volume / col.area))) :=
+        (lastOr (lineSizes none bb steps) (top.volume / col.area)))) :=
   columnSurface_line T g mp maxVol col bottomLayer gn bb steps hbl hgn hmp hfb hlen hok hline top htop c hc hv
 
 /-! ### spacings -/
